@@ -401,3 +401,41 @@ fn tq_put_leakcheck() {
     drop(c);
     assert!(conserved(created, 0), "[C04.drop] dropping the cache releases every retained key and value exactly once");
 }
+
+// ------------------------------------------------------------------ ownership with heap-owning values (C04), cheap variant
+// (see harness_segmented.rs: V = Box<u8>, double drops / use after free are CBMC failures by themselves)
+type TqB = TwoQueueCache<u8, alloc::boxed::Box<u8>, PoisonHasher, PoisonHasher, PoisonHasher>;
+
+#[kani::proof]
+#[kani::unwind(6)]
+fn tq_put_boxed_values() {
+    let size: usize = kani::any();
+    let quota: usize = kani::any();
+    kani::assume(size >= 1 && size <= N && quota <= size);
+    let recent = any_abs(N, 1);
+    let frequent = any_abs(N, 1);
+    let ghost = any_abs(N, 1);
+    kani::assume(recent.cap == size && frequent.cap == size && ghost.cap <= size && recent.n + frequent.n <= size);
+    kani::assume(partitioned(&[&recent, &frequent, &ghost]));
+    let mk = |a: &Abs| RawLRU::<u8, alloc::boxed::Box<u8>, DefaultEvictCallback, PoisonHasher>::verif_from_parts(a.cap, PoisonHasher, None, a.n, |i| (a.k[i], alloc::boxed::Box::new(a.v[i])));
+    let mut c: TqB = TwoQueueCache::verif_from_parts(size, quota, mk(&recent), mk(&frequent), mk(&ghost));
+    let k: u8 = kani::any();
+    let v: u8 = kani::any();
+    kani::cover!(ghost.has(k) && recent.n + frequent.n == size && ghost.n == ghost.cap, "2q boxed put: ghost hit, everything full");
+    kani::cover!(holders(&[&recent, &frequent, &ghost], k) == 0 && recent.n + frequent.n == size && ghost.n == ghost.cap, "2q boxed put: new key, ghost overflow");
+    let r = c.put(k, alloc::boxed::Box::new(v));
+    let back = match &r {
+        PutResult::Put => None,
+        PutResult::Update(o) => Some(**o),
+        PutResult::Evicted { value, .. } => Some(**value),
+        PutResult::EvictedAndUpdate { update, .. } => Some(**update),
+    };
+    if let Some(x) = lookup(&[&recent, &frequent, &ghost], k) {
+        assert!(back == Some(x), "[C04.handback][C12.result] the old value handed back by an update or revival is the stored one, still alive");
+    }
+    drop(r);
+    let (post, wf) = c.verif_check();
+    assert!(wf, "[C03.wf] queues well formed with heap-owning values");
+    assert!(lookup(&[&post.recent, &post.frequent], k) == Some(v), "[C04.alive][C02.value] the stored value is alive and is the one just put");
+    c.verif_forget();
+}
